@@ -284,6 +284,6 @@ func init() {
 		New:      func() any { return &C20Case{} },
 		Check:    func(c any) Result { return checkC20(c.(*C20Case)) },
 		Quick:    2000,
-		Thorough: 12000,
+		Thorough: 150000,
 	})
 }
